@@ -10,6 +10,51 @@ use serde_json::json;
 
 pub struct C01;
 
+/// Macro-cancel sweep: a cancellable macro whose steps include actions with a release handler (mouse
+/// buttons, wheel, mouse movement, unmod), cancelled at every offset into the macro (including the
+/// one tick between such a step's press and release), by another key press or by the release of
+/// the macro key; afterwards nothing may be left down or running.
+fn gen_macro_cancel(r: &mut Rng, seed: u64) -> Case {
+    let mut case = Case { prop: "C01".into(), seed, ..Default::default() };
+    let variants = ["macro-cancel-on-press", "macro-release-cancel", "macro-release-cancel-and-cancel-on-press", "macro-repeat-release-cancel", "macro-repeat-cancel-on-press"];
+    let steps = ["x", "mlft", "mrgt", "(mwheel-up 50 120)", "(mwheel-right 30 120)", "(movemouse-down 5 1)", "(unmod z)", "(unshift y)", "S-k", "(unicode é)", "5", "10", "3"];
+    let v = *r.pick(&variants);
+    let n = r.range(2, 6);
+    let mut body: Vec<String> = vec![];
+    for _ in 0..n {
+        body.push(r.pick(&steps).to_string());
+        if r.chance(500) {
+            body.push(r.range(1, 12).to_string());
+        }
+    }
+    case.cfg = format!("(defcfg process-unmapped-keys no)\n(defsrc a b)\n(deflayer l0 ({v} {}) b)\n", body.join(" "));
+    let (ka, kb) = (oscode_of("a"), oscode_of("b"));
+    let g = r.range(1, 45) as u32;
+    let mut ops = vec![Op::Gap(2), Op::Press(ka)];
+    if r.chance(500) {
+        // cancelled by another key
+        ops.push(Op::Gap(g));
+        ops.push(Op::Press(kb));
+        ops.push(Op::Gap(r.range(1, 10) as u32));
+        ops.push(Op::Release(kb));
+        ops.push(Op::Gap(r.range(0, 3) as u32));
+        ops.push(Op::Release(ka));
+    } else {
+        // cancelled by releasing the macro key
+        ops.push(Op::Gap(g));
+        ops.push(Op::Release(ka));
+        if r.chance(400) {
+            ops.push(Op::Gap(r.range(0, 5) as u32));
+            ops.push(Op::Press(kb));
+            ops.push(Op::Gap(2));
+            ops.push(Op::Release(kb));
+        }
+    }
+    case.ops = ops;
+    case.set("pop", "macro-cancel-sweep");
+    case
+}
+
 /// Capacity populations: the statement quantifies over "more than 64 simultaneously active
 /// states, more than 8 concurrent tap-holds and more than 16 concurrent one-shots"; the general
 /// generator reaches these limits too rarely (and never with a custom action pressed at the
@@ -151,6 +196,9 @@ impl Prop for C01 {
         let mut r = Rng::new(seed);
         if r.chance(120) {
             return gen_capacity(&mut r, seed);
+        }
+        if r.chance(80) {
+            return gen_macro_cancel(&mut r, seed);
         }
         let pressure = r.chance(150);
         let o = GenOpts {
